@@ -889,7 +889,9 @@ def main(tier: str, selftest_cases: int = 0) -> int:
                                   f"history {r2['history']}: last query answers "
                                   f"{'fails' if r2['implemented'] == EMPTY else r2['implemented']} but the "
                                   f"declarations alone give {'fails' if r2['specified'] == EMPTY else r2['specified']}",
-                                  replay(r2["history"]))
+                                  # the refinement is one reading of "selective": a history the real code
+                                  # does not show is inconclusive, not a harness error
+                                  replay(r2["history"]), soft=True)
             break
     if mc["generic_caches"]:
         for (N, L) in bounds:
